@@ -347,12 +347,13 @@ Inductive op :=
 | IncVol (n : path) (news dels : list vshort)             (* Topology.IncrementalSyncDataNodeRegistration *)
 | FullEc (n : path) (shards : list ecinfo)                (* Topology.SyncDataNodeEcShards *)
 | IncEc (n : path) (news dels : list ecinfo)              (* Topology.IncrementalSyncDataNodeEcShards *)
-| Unregister (n : path).
+| Unregister (n : path)
+| Grow (n : path) (v : vinfo).                            (* VolumeGrowth.grow: server.AddOrUpdateVolume(vi) *)
 
 Definition op_node (o : op) : path :=
   match o with
   | Join dc rack node _ => [dc; rack; node]
-  | AdjustMax n _ | FullVol n _ | IncVol n _ _ | FullEc n _ | IncEc n _ _ | Unregister n => n
+  | AdjustMax n _ | FullVol n _ | IncVol n _ _ | FullEc n _ | IncEc n _ _ | Unregister n | Grow n _ => n
   end.
 
 (* [order]: the iteration order of the one Go map whose order matters in this step *)
@@ -370,6 +371,7 @@ Definition step (order : list nat) (st : state) (o : op) : state :=
          | FullEc _ shards => update_ec_shards order st n shards
          | IncEc _ news dels => delta_update_ec st n news dels
          | Unregister _ => unregister st n
+         | Grow _ v => add_or_update_volume st n v
          end
   end.
 
@@ -528,3 +530,114 @@ Definition info_eqb (a b : ninfo) : bool :=
 Definition state_eqb (a b : state) : bool :=
   Nat.eqb (length a) (length b) &&
   forallb (fun e => present b (fst e) && info_eqb (snd e) (info b (fst e))) a.
+
+(* ====================================================================== *)
+(* Additions after the audit (session 3).  Nothing above changes meaning. *)
+(* ====================================================================== *)
+
+(* ---------- what a full heartbeat must leave registered ---------- *)
+Definition vpair := (N * string)%type.
+Definition vpair_eqb (a b : vpair) : bool := N.eqb (fst a) (fst b) && String.eqb (snd a) (snd b).
+Definition vpairs (l : list vinfo) : list vpair := map (fun v => (v_id v, v_disk v)) l.
+Definition mem_pair (x : vpair) (l : list vpair) : bool := existsb (vpair_eqb x) l.
+Definition same_pairs (a b : list vpair) : bool :=
+  forallb (fun x => mem_pair x b) a && forallb (fun x => mem_pair x a) b.
+
+(* after a full volume heartbeat [vs] of data node n the set of (volume id, disk) registered
+   beneath n is the reported one *)
+Definition reg_vol_ok (st' : state) (n : path) (vs : list vinfo) : bool :=
+  same_pairs (vpairs (node_volumes st' n)) (vpairs vs).
+
+(* k = 1: a volume registered on disk d of the server whose id is in the full heartbeat but
+   not on d (UpdateVolumes looks the registered volume up by id only, data_node.go:76) *)
+Definition trig_vol_moved (st : state) (n : path) (actual : list vinfo) : bool :=
+  existsb (fun v => existsb (fun a => N.eqb (v_id a) (v_id v)) actual &&
+                    negb (existsb (fun a => N.eqb (v_id a) (v_id v) && String.eqb (v_disk a) (v_disk v)) actual))
+          (node_volumes st n).
+
+(* the EC entries a full EC heartbeat registers: per (id, disk) the last one listed *)
+Fixpoint last_per_key (l : list ecinfo) : list ecinfo :=
+  match l with
+  | [] => []
+  | a :: l' =>
+      if existsb (fun b => N.eqb (e_id b) (e_id a) && String.eqb (e_disk b) (e_disk a)) l'
+      then last_per_key l' else a :: last_per_key l'
+  end.
+Definition reg_ec_ok (st' : state) (n : path) (actual : list ecinfo) : bool :=
+  set_eqb ecinfo_eqb (node_ecs st' n) (last_per_key actual).
+
+(* k = 0, narrowed (the check files a case under finding 0 only inside this set):
+   (a) an id is listed on another disk than one it is registered on, or
+   (b) an (id, disk) is listed twice and the id is registered nowhere on the server.
+   Outside: an id listed twice on the disk it is registered on; an unregistered id listed once
+   on each of two disks; an id registered on two disks and not listed at all. *)
+Fixpoint dup_on_disk (l : list ecinfo) : list ecinfo :=
+  match l with
+  | [] => []
+  | a :: l' =>
+      if existsb (fun b => N.eqb (e_id b) (e_id a) && String.eqb (e_disk b) (e_disk a)) l'
+      then a :: dup_on_disk l' else dup_on_disk l'
+  end.
+Definition trig_ec_narrow (st : state) (n : path) (actual : list ecinfo) : bool :=
+  let reg := node_ecs st n in
+  existsb (fun e => existsb (fun a => N.eqb (e_id a) (e_id e) && negb (String.eqb (e_disk a) (e_disk e))) actual) reg ||
+  existsb (fun a => negb (existsb (fun e => N.eqb (e_id e) (e_id a)) reg)) (dup_on_disk actual).
+
+Definition addressed (st : state) (o : op) : bool :=
+  let n := op_node o in present st n && Nat.eqb (length n) 3.
+
+(* per-step triggers of the two findings, evaluated on the state BEFORE the event *)
+Definition step_k0 (st : state) (o : op) : bool :=
+  match o with FullEc n a => addressed st o && trig_ec_narrow st n a | _ => false end.
+Definition step_k1 (st : state) (o : op) : bool :=
+  match o with FullVol n a => addressed st o && trig_vol_moved st n a | _ => false end.
+
+(* the registration clause of one event *)
+Definition step_reg_ok (st st' : state) (o : op) : bool :=
+  negb (addressed st o) ||
+  match o with
+  | FullVol n vs => reg_vol_ok st' n vs
+  | FullEc n a => reg_ec_ok st' n a
+  | _ => true
+  end.
+
+(* ---------- EC drift: counter minus recomputation ---------- *)
+Definition ec_drift (st : state) (p : path) (t : string) : Z :=
+  ecShardCount (uget (i_usage (info st p)) t) - sumZ (fun e => nec (snd e) t) (beneath st p).
+
+(* an event outside finding 0 leaves the drift of every node as it was; UnRegisterDataNode takes
+   the node's drift off its ancestors; new nodes start without drift *)
+Definition drift_step_ok (o : op) (st st' : state) : bool :=
+  let ts := dedup String.eqb (types_of st [] ++ types_of st' []) in
+  forallb (fun e' =>
+    let p := fst e' in
+    forallb (fun t =>
+      ec_drift st' p t =?
+      (if present st p
+       then ec_drift st p t -
+            (match o with
+             | Unregister n => if addressed st o && is_prefix p n then ec_drift st n t else 0
+             | _ => 0
+             end)
+       else 0)) ts) st'.
+
+(* exactness of everything but the EC shard count *)
+Definition exact_noec_at (st : state) (r : ref_state) (p : path) (t : string) : bool :=
+  let c := uget (i_usage (info st p)) t in
+  let b := beneath st p in
+  (volumeCount c =? sumZ (fun e => nvol (snd e) t) b) &&
+  (remoteVolumeCount c =? sumZ (fun e => nremote (snd e) t) b) &&
+  (maxVolumeCount c =? sumZ (fun e => dmax e t) b) &&
+  (if Nat.eqb (length p) 3 then maxVolumeCount c =? rget (ref_info r p) t else true).
+Definition exact_noec_b (st : state) (r : ref_state) : bool :=
+  let ts := types_of st r in
+  forallb (fun e => forallb (exact_noec_at st r (fst e)) ts) st.
+
+(* ---------- free slots (NodeImpl.AvailableSpaceFor = TopoPlace.free_space) ---------- *)
+Definition recomputed (st : state) (p : path) (t : string) : counts :=
+  let b := beneath st p in
+  mkCounts (sumZ (fun e => nvol (snd e) t) b) (sumZ (fun e => nremote (snd e) t) b) 0
+           (sumZ (fun e => nec (snd e) t) b) (sumZ (fun e => dmax e t) b).
+Definition free_exact_b (st : state) (r : ref_state) : bool :=
+  forallb (fun e => forallb (fun t =>
+      free_space (uget (i_usage (info st (fst e))) t) =? free_space (recomputed st (fst e) t)) (types_of st r)) st.
